@@ -1175,3 +1175,98 @@ def c01_native(runs=6000):
                                    observed='state %s (S/I/R per node 0..3) at time tmin+%s has empirical probability %.4f, the master equation gives %.4f (6 standard errors = %.4f)' % (
                                        ''.join('SIR'[x] for x in states[worst]), T, got[worst], want[worst], 6 * se[worst]))
     return n, None
+
+
+# ------------------------------------------------------------------------------------------------ C15
+def c15_native():
+    """Gillespie_complex_contagion under a scripted random source: at EVERY step the waiting time is drawn with the sum of the user's
+    rate function over the CURRENT statuses (recomputed independently), the node that changes had a positive rate and takes the
+    chooser's status.  Models: SIR and SIRS as complex contagions, a threshold model, cumulative exposure; influence sets returned as
+    list / set / one-shot iterator (G.neighbors) / generator; an influence function that depends on the node's NEW status; isolated
+    nodes with a positive rate; tmin != 0."""
+    import EoN
+    import EoN.simulation as sim_mod
+    n = 0
+    G = nx.Graph(); G.add_edges_from([(0, 1), (1, 2), (2, 0), (2, 3), (3, 4)]); G.add_nodes_from([5, 6])
+
+    def sir_rate(G_, node, status, par):
+        tau, gamma = par
+        if status[node] == 'S':
+            return tau * sum(1 for nb in G_.neighbors(node) if status[nb] == 'I')
+        return gamma * (1.0 + 0.5 * (node % 2)) if status[node] == 'I' else 0.0
+
+    def sirs_rate(G_, node, status, par):
+        tau, gamma = par
+        if status[node] == 'R':
+            return 0.7
+        return sir_rate(G_, node, status, par)
+
+    def expo_rate(G_, node, status, par):           # cumulative exposure: neighbours in I or R count
+        tau, gamma = par
+        if status[node] == 'S':
+            return tau * sum(1 for nb in G_.neighbors(node) if status[nb] in ('I', 'R'))
+        return gamma if status[node] == 'I' else 0.0
+
+    def thr_rate(G_, node, status, par):            # threshold: needs 2 infected neighbours; infected never recover
+        return 1.5 if status[node] == 'S' and sum(1 for nb in G_.neighbors(node) if status[nb] == 'I') >= 2 else 0.0
+
+    def choose(G_, node, status, par):
+        return {'S': 'I', 'I': 'R', 'R': 'S'}[status[node]]
+    infl = {
+        'list': lambda G_, node, status, par: list(G_.neighbors(node)),
+        'set': lambda G_, node, status, par: set(G_.neighbors(node)),
+        'one-shot iterator G.neighbors(node)': lambda G_, node, status, par: G_.neighbors(node),
+        'generator': lambda G_, node, status, par: (nb for nb in G_.neighbors(node)),
+        # only a node that has just become infected or recovered changes its neighbours' rates in the exposure model: depends on the NEW status
+        'depends on the new status': lambda G_, node, status, par: [nb for nb in G_.neighbors(node) if status[nb] == 'S'] if status[node] == 'I' else [],
+    }
+    models = [('SIR', sir_rate, ['list', 'set', 'one-shot iterator G.neighbors(node)', 'generator']), ('SIRS', sirs_rate, ['list', 'one-shot iterator G.neighbors(node)']),
+              ('threshold', thr_rate, ['set', 'generator']), ('cumulative exposure', expo_rate, ['depends on the new status', 'list'])]
+    old = sim_mod.random
+    rng = random.Random(15)
+    try:
+        for mname, rate, kinds in models:
+            for kind in kinds:
+                for trial in range(5):
+                    n += 1
+                    IC = {u: rng.choice(['S', 'S', 'I', 'R'] if mname != 'threshold' else ['S', 'I']) for u in G}
+                    tmin = rng.choice([0, 2.5, -1.0])
+                    src = ScriptedRandom(1000 + n)
+                    sim_mod.random = src
+                    wit = dict(model=mname, influence_set=kind, edges=list(G.edges()), isolated=[5, 6], IC=dict(IC), tmin=tmin, parameters=(0.9, 1.2))
+                    try:
+                        sim = EoN.Gillespie_complex_contagion(G, rate, choose, infl[kind], dict(IC), ['S', 'I', 'R'], parameters=(0.9, 1.2), tmin=tmin, tmax=tmin + 3.0, return_full_data=True)
+                    except Exception as e:
+                        wit['observed'] = '%s: %s' % (type(e).__name__, e)
+                        return n, wit
+                    finally:
+                        sim_mod.random = old
+                    status = dict(IC)
+                    for step, used in enumerate(src.rates):
+                        rates = {u: rate(G, u, status, (0.9, 1.2)) for u in G}
+                        total = sum(rates.values())
+                        if abs(used - total) > 1e-9 * max(1.0, total):
+                            wit['observed'] = 'step %d: waiting time drawn with rate %s, the rates of the current statuses %s sum to %s' % (step, used, status, total)
+                            return n, wit
+                        tt = tmin + 0.125 * (step + 1)
+                        if tt >= tmin + 3.0:
+                            break
+                        changed = [u for u in G if any(abs(float(x) - tt) < 1e-12 for x in sim.node_history(u)[0][1:])]
+                        if len(changed) != 1:
+                            wit['observed'] = 'step %d at time %s: %d nodes change status' % (step, tt, len(changed))
+                            return n, wit
+                        u = changed[0]
+                        i = [k for k, x in enumerate(sim.node_history(u)[0]) if k > 0 and abs(float(x) - tt) < 1e-12][0]
+                        new = sim.node_history(u)[1][i]
+                        if rates[u] <= 0 or new != choose(G, u, status, None):
+                            wit['observed'] = 'step %d: node %s (rate %s) moves %s -> %s; the chooser says %s' % (step, u, rates[u], status[u], new, choose(G, u, status, None))
+                            return n, wit
+                        status[u] = new
+                    # the run may only stop before tmax when nothing can happen any more
+                    last_t = tmin + 0.125 * len(src.rates)
+                    if last_t < tmin + 3.0 and sum(rate(G, u, status, (0.9, 1.2)) for u in G) > 0:
+                        wit['observed'] = 'the run stops at %s < tmax although the rates of the final statuses %s are positive' % (last_t, status)
+                        return n, wit
+    finally:
+        sim_mod.random = old
+    return n, None
